@@ -115,10 +115,14 @@ pub fn worker(id: &str, args: &[String]) -> i32 {
   match id {
     "C01" => c01::worker("C01", args),
     "C02" => c01::worker("C02", args),
+    "C05" => cpusweep::worker("C05", args),
+    "C06" => cpusweep::worker("C06", args),
     #[cfg(gb_dynarec_verif)]
     "C03" => c03::worker(args),
     #[cfg(gb_dynarec_verif)]
     "C04" => c04::worker(args),
+    #[cfg(gb_dynarec_verif)]
+    "C07" => c07::worker(args),
     #[cfg(gb_dynarec_verif)]
     "C09" => c09::worker(args),
     #[cfg(gb_dynarec_verif)]
